@@ -298,6 +298,7 @@ func TestC04(t *testing.T) {
 	sweep(r)
 	aliasSweep(r)
 	derivedSweep(r)
+	repeatSweep(r)
 	programs(r)
 	r.Require("solve.accepted(expected)", 1000)
 	r.Require("solve.rejected(expected)", 1000)
@@ -570,6 +571,114 @@ func derivedSweep(r *vcore.Run) {
 			checkOne(r, c, nil, in, "derived")
 		})
 		r.Count("derived.programs", 1)
+	})
+}
+
+// repeatSweep: the same operation twice, the second time on operands that are multiples of the
+// first ones (all doubled, or all negated) with the same literal constant where the operation
+// takes one.  The sparse builder answers a repeated addition / multiplication from a cache of
+// recorded gates (scaled by the coefficient ratio) instead of emitting a new gate; the second
+// result must still be the documented function of its own operands.
+func repeatSweep(r *vcore.Run) {
+	type job struct {
+		op      string
+		lastLit bool // the last operand is the literal 5 in both applications
+		neg     bool // second application on negated (instead of doubled) operands
+		builder string
+	}
+	var jobs []job
+	for _, op := range sweepOps {
+		if arity(op) > 3 || progs.NbResults(progs.Instr{Op: op, N: 6}) == 0 {
+			continue
+		}
+		for _, ll := range []bool{false, true} {
+			if ll && arity(op) < 2 {
+				continue
+			}
+			for _, ng := range []bool{false, true} {
+				for _, b := range []string{"r1cs", "scs"} {
+					jobs = append(jobs, job{op, ll, ng, b})
+				}
+			}
+		}
+	}
+	vcore.Parallel(len(jobs), 14, func(ji int) {
+		j := jobs[ji]
+		a := arity(j.op)
+		nv := a
+		if j.lastLit {
+			nv = a - 1
+		}
+		rng := r.Rand(fmt.Sprintf("repeat/%s/%v/%v/%s", j.op, j.lastLit, j.neg, j.builder))
+		p := &progs.Program{}
+		for i := 0; i < nv; i++ {
+			p.Inputs = append(p.Inputs, progs.Kind(1+i%2))
+		}
+		lit := len(p.Inputs)
+		p.Inputs = append(p.Inputs, progs.Const, progs.Const)
+		p.Lits = make([]*big.Int, len(p.Inputs))
+		p.Lits[lit], p.Lits[lit+1] = big.NewInt(5), big.NewInt(2)
+		reg := len(p.Inputs)
+		n := 0
+		if j.op == "ToBinary" {
+			n = 6
+		}
+		mk := func(args []int) progs.Instr {
+			ins := progs.Instr{Op: j.op, N: n, Args: args}
+			if j.op == "EvaluatePlonkExpression" {
+				ins.Q = []int{2, -3, 7, 5}
+			}
+			return ins
+		}
+		var first []int
+		for i := 0; i < nv; i++ {
+			first = append(first, i)
+		}
+		if j.lastLit {
+			first = append(first, lit)
+		}
+		ins1 := mk(first)
+		p.Instrs = append(p.Instrs, ins1)
+		for k := 0; k < progs.NbResults(ins1); k++ {
+			p.Exposed = append(p.Exposed, reg+k)
+		}
+		reg += progs.NbResults(ins1)
+		var second []int
+		for i := 0; i < nv; i++ {
+			if j.neg {
+				p.Instrs = append(p.Instrs, progs.Instr{Op: "Neg", Args: []int{i}})
+			} else {
+				p.Instrs = append(p.Instrs, progs.Instr{Op: "Mul", Args: []int{lit + 1, i}})
+			}
+			second = append(second, reg)
+			reg++
+		}
+		if j.lastLit {
+			second = append(second, lit)
+		}
+		ins2 := mk(second)
+		p.Instrs = append(p.Instrs, ins2)
+		for k := 0; k < progs.NbResults(ins2); k++ {
+			p.Exposed = append(p.Exposed, reg+k)
+		}
+		for i := 0; i < nv; i++ {
+			p.Exposed = append(p.Exposed, i)
+		}
+		c, err := progs.Compile(p, nil, tiny, j.builder)
+		r.Count("compilations", 1)
+		if err != nil {
+			r.Count("repeat.compile-refused", 1)
+			return
+		}
+		tuples(rng, nv, r.Pick(2209, 103823), func(t []int) {
+			in := make([]*big.Int, len(p.Inputs))
+			for i := 0; i < nv; i++ {
+				in[i] = big.NewInt(int64(t[i]))
+			}
+			p.FillLits(in, tiny)
+			checkOne(r, c, nil, in, "repeat")
+		})
+		r.Count("repeat.programs", 1)
 	})
 }
 
